@@ -1,0 +1,16 @@
+//go:build verif
+
+package table
+
+// VerifCacheEntries returns the file names of the readers the cache holds with their reference counts.
+// Verification hook only.
+func VerifCacheEntries(c Cache) map[string]int32 {
+	sc := c.(*storeCache)
+	sc.mutex.Lock()
+	defer sc.mutex.Unlock()
+	out := make(map[string]int32)
+	for key, e := range sc.cache.items {
+		out[key] = e.Value.(*cacheEntry).ref.Load()
+	}
+	return out
+}
